@@ -179,7 +179,10 @@ MsgClasses == {"trailing_bytes", "type_byte_only", "random_body"}
 
 (* ------------------------------------------------------------- stage machine *)
 KexFamilies == {"dh", "gex", "ecdh", "c25519"}
-Methods     == {"none", "password", "publickey", "kbdint"}          \* auth call made by a client victim
+\* auth call made by a client victim; "password-kbdint" = auth_password() whose password request was refused with
+\* "keyboard-interactive" as the only method left, so that it falls back to auth_interactive() with its own handler
+Methods     == {"none", "password", "publickey", "kbdint", "password-kbdint"}
+Interactive == {"kbdint", "password-kbdint"}
 Ciphers     == {"ctr-hmac", "ctr-etm", "cbc-hmac", "gcm"}        \* every CIPHERTEXT case is run once per suite
 
 VARIABLES role,      \* "client" | "server": the endpoint under test (the victim); fixed by Init
@@ -235,7 +238,7 @@ ParsedDef(r, s, f, meth) ==
                          ELSE {})
     [] s = "service" -> IF r = "server" THEN ServerAuthRequests \cup {"SERVICE_REQUEST"} ELSE {"SERVICE_ACCEPT"}
     [] s = "userauth" -> {"USERAUTH_SUCCESS", "USERAUTH_FAILURE", "USERAUTH_BANNER"} \cup
-                         (IF meth = "kbdint" THEN {"USERAUTH_INFO_REQUEST"} ELSE {}) \cup
+                         (IF meth \in Interactive THEN {"USERAUTH_INFO_REQUEST"} ELSE {}) \cup
                          (IF meth = "publickey" THEN {"USERAUTH_PK_OK"} ELSE {})
     [] s = "kbdint"   -> {"USERAUTH_INFO_RESPONSE"}
     [] s = "gss_token" -> {"USERAUTH_GSSAPI_TOKEN"}
@@ -281,6 +284,13 @@ InModel(r, k) ==
   /\ \/ /\ k.msg \in Parsed(r, k.stage, k.fam, k.method)
         /\ <<k.idx, k.class>> \in Malformations(k.msg)
      \/ /\ k.msg \in Misplaced(r, k.stage) /\ k.idx = 0 /\ k.class = "misplaced"
+
+\* the fixed part of every run of the check, whatever the tier and the seed: in the authentication stages, every
+\* field of every message that is parsed there, cut off before / inside the field or (text-like fields) not UTF-8
+AuthStages == {"service", "userauth", "kbdint", "gss_token", "gss_mic"}
+Core(r, k) == /\ k.stage \in AuthStages /\ k.idx > 0
+              /\ k.msg \in Parsed(r, k.stage, k.fam, k.method) \ (Always \cup {"KEXINIT", "CIPHERTEXT", "EXT_INFO"})
+              /\ k.class \in {"trunc_before", "trunc_inside", "bad_utf8"}
 
 (* --- how a malformed field comes out of the decoders of the pinned tree (used only when ~Guarded, and as
    the prediction the trace spec compares observations with).  "-" = no internal error expected:
@@ -356,10 +366,10 @@ FailureClassAllowed == Failures \subseteq AllowedClasses   \* C38 on the model
 TypeOK == /\ role \in Roles /\ stage \in Stages /\ fam \in KexFamilies \cup {"-"} /\ method \in Methods \cup {"-"}
           /\ (inj # <<>> => InModel(role, inj))
 
-\* spec -> code: the grammar once, then one CASE per abstract case (= per post-injection state)
+\* spec -> code: the grammar once, then one CASE per abstract case (= per post-injection state) with its Core flag
 Emit == /\ (stage = "banner" /\ role = (CHOOSE r \in Roles : TRUE)) =>
              /\ \A m \in AllMsgs : PrintT(<<"GRAMMAR", m, Types(m), Names(m)>>)
              /\ PrintT(<<"CIPHERS", Ciphers>>)
         /\ (inj # <<>>) =>
-             PrintT(<<"CASE", role, inj.stage, inj.fam, inj.method, inj.msg, inj.idx, inj.class>>)
+             PrintT(<<"CASE", role, inj.stage, inj.fam, inj.method, inj.msg, inj.idx, inj.class, Core(role, inj)>>)
 =============================================================================
